@@ -240,13 +240,21 @@ def canon(gamma: dict, hist, obs: Obs):
     continuation heading?, page non-empty)"""
     if not obs.pages or not hist:
         return (0, 0, 0, False, False)
-    _, _, start = keys_of(gamma, hist)
+    pb, _, start = keys_of(gamma, hist)
+    if norm_gamma(gamma)["strategy"] == "subline+page_by":
+        # a subline_by change that keeps the page_by value opens its page with a re-emitted (continuation)
+        # heading, not with a group start: the two have different futures and must not be merged
+        start = [0 if (st == "s" and i > 0 and all(col[i] == col[i - 1] for col in pb)) else st for i, st in enumerate(start)]
     last = obs.pages[-1]
     data = [(info[1], lines) for role, info, lines in last if role == "data"]
     heads = sum(1 for role, _, _ in last if role in ("group", "subline_by"))
     D = sum(l for _, l in data)
     starts = sum(1 for r, _ in data if start[r] not in (0,))
     cont = bool(data) and start[data[0][0]] == 0 and heads > 0
+    if norm_gamma(gamma)["strategy"] == "subline+page_by":
+        # the event 's' re-starts the page_by ordinals: whether it keeps the running page_by value depends on
+        # the value of the last row, which therefore belongs to the state (otherwise 's' is not deterministic)
+        return (D, heads, starts, cont, bool(data), all(col[-1] == 0 for col in pb))
     return (D, heads, starts, cont, bool(data))
 
 
